@@ -84,8 +84,26 @@ let parse_validate toks =
             prepared_path = cs_of_string (if ppath then "/some/non-empty/path" else "") };
     st }
 
+(* docdefault;F:key=value *)
+let parse_doc toks =
+  match toks with
+  | t :: _ when Stdlib.String.length t > 2 && Stdlib.String.get t 1 = ':' ->
+    Some (cut_eq (Stdlib.String.sub t 2 (Stdlib.String.length t - 2)))
+  | _ -> None
+
+let table_entry k =
+  let ck = cs_of_string k in
+  Stdlib.List.find_opt (fun ((k', _), _) -> k' = ck) tbl
+
 let model input =
   match split_on ';' input with
+  | "docdefault" :: toks ->
+    (match parse_doc toks with
+     | None -> "BAD-INPUT"
+     | Some (k, _) ->
+       (match table_entry k with
+        | Some ((_, _), d) -> k ^ "=" ^ string_of_cs d
+        | None -> k ^ "=<absent>"))
   | "load" :: toks -> let (env, file) = parse_load toks in render_loaded (Config.load_model tbl env file)
   | "validate" :: toks ->
     let v = parse_validate toks in
@@ -149,6 +167,16 @@ let spec input obs =
          then "FAIL prepared-stat-error-accepted the prepared-database file cannot be there, yet the section is accepted"
          else "FAIL invalid-db-accepted")
       else "FAIL valid-db-refused " ^ obs
+  | "docdefault" :: toks ->
+    (match parse_doc toks with
+     | None -> "FAIL malformed-input"
+     | Some (k, v) ->
+       (match table_entry k with
+        | None -> "FAIL documented-key-unknown key=" ^ k
+        | Some ((_, ty), _) ->
+          let want = match Config.canon ty (cs_of_string v) with Some c -> string_of_cs c | None -> "<ill-typed " ^ v ^ ">" in
+          if obs = k ^ "=" ^ want then "OK"
+          else Printf.sprintf "FAIL documented-default-differs documented=%s actual=%s" want obs))
   | _ -> "FAIL malformed-input"
 
 let () = run_driver model spec
